@@ -159,67 +159,167 @@ def _slice_of(x, base: str):
     return None
 
 
+def _split_outcomes(e: Engine, ctx):
+    """The ways Envelope.parse cuts its input: [(function, header expr,
+    payload expr, site)] - from the helper whose 2-tuple result parse
+    unpacks, or from the paired assignments of parse itself.  Also returns
+    the name that stands for the payload in parse."""
+    fn = ctx.func.node
+    data = ctx.func.params[1]
+    # the call that stores the body
+    merge = [x for x in walk_own(fn) if isinstance(x, ast.Call) and
+             ast.unparse(x.func).endswith('_merge_payloads') and
+             len(x.args) == 2]
+    if not merge or not isinstance(merge[0].args[1], ast.Name):
+        return None
+    pv = merge[0].args[1].id
+    # A. header, payload = helper(data)
+    for a in walk_own(fn):
+        if isinstance(a, ast.Assign) and len(a.targets) == 1 and \
+                isinstance(a.targets[0], ast.Tuple) and \
+                len(a.targets[0].elts) == 2 and all(
+                    isinstance(t, ast.Name) for t in a.targets[0].elts) and \
+                a.targets[0].elts[1].id == pv and \
+                isinstance(a.value, ast.Call) and a.value.args and \
+                ast.unparse(a.value.args[0]) == data:
+            f = a.value.func
+            tgt = None
+            if isinstance(f, ast.Name):
+                tgt = e.p.functions.get(ctx.func.module.name + '.' + f.id)
+            elif isinstance(f, ast.Attribute) and \
+                    isinstance(f.value, ast.Name) and \
+                    f.value.id in ('self', 'cls') and ctx.func.cls:
+                tgt = e.p.lookup_method(ctx.func.cls.qname, f.attr)
+            if tgt is None:
+                return None
+            out = []
+            for r in walk_own(tgt.node):
+                if isinstance(r, ast.Return):
+                    if not (isinstance(r.value, ast.Tuple) and
+                            len(r.value.elts) == 2):
+                        return None
+                    out.append((tgt, r.value.elts[0], r.value.elts[1], r))
+            dparam = [p for p in tgt.params if p not in ('self', 'cls')]
+            return (out, pv, a.targets[0].elts[0].id, tgt,
+                    dparam[0] if dparam else None)
+    # B. paired assignments in the branches of parse
+    hv = None
+    for x in walk_own(fn):
+        if isinstance(x, ast.Call) and \
+                ast.unparse(x.func).endswith('_parse_data') and x.args and \
+                isinstance(x.args[0], ast.Name):
+            hv = x.args[0].id
+    if hv is None:
+        return None
+    out = []
+
+    def bodies(stmts):
+        yield stmts
+        for s in stmts:
+            for fld in ('body', 'orelse', 'finalbody'):
+                sub = getattr(s, fld, None)
+                if isinstance(sub, list) and sub and \
+                        isinstance(sub[0], ast.stmt):
+                    yield from bodies(sub)
+    for body in bodies(fn.body):
+        h = [s for s in body if isinstance(s, ast.Assign) and any(
+            isinstance(t, ast.Name) and t.id == hv for t in s.targets)]
+        p = [s for s in body if isinstance(s, ast.Assign) and any(
+            isinstance(t, ast.Name) and t.id == pv for t in s.targets)]
+        if h or p:
+            if len(h) != 1 or len(p) != 1:
+                return None
+            out.append((ctx.func, h[0].value, p[0].value, p[0]))
+    return out, pv, hv, ctx.func, data
+
+
 def e1_e2(e: Engine, rep: Report):
     ctx = e.method_ctx(ENV, 'parse')
     fn = ctx.func.node
     where = ctx.func.qname
     rep.functions.add(where)
-    data = ctx.func.params[1]
-    assigns = {}
-    for n in walk_own(fn):
-        if isinstance(n, ast.Assign) and len(n.targets) == 1 and \
-                isinstance(n.targets[0], ast.Name):
-            assigns.setdefault(n.targets[0].id, []).append(n)
-    # the two slices
-    heads = [(v, n) for v, ns in assigns.items() for n in ns
-             if (_slice_of(n.value, data) or ('', ''))[0] == 'to']
-    tails = [(v, n) for v, ns in assigns.items() for n in ns
-             if (_slice_of(n.value, data) or ('', ''))[0] == 'from']
+    got = _split_outcomes(e, ctx)
     rep.evaluations += 1
-    if len(heads) != 1 or len(tails) != 1:
-        rep.error('anchor vanished: the two slices of `%s` in Envelope.parse '
-                  '(%d/%d)' % (data, len(heads), len(tails)))
+    if not got or not got[0]:
+        rep.error('cannot read how Envelope.parse cuts its input into header '
+                  'block and payload')
         return
-    (hv, hn), (tv, tn) = heads[0], tails[0]
-    hk = _slice_of(hn.value, data)[1]
-    tk = _slice_of(tn.value, data)[1]
-    # the index may first be put in a local
-    if hk == tk and hk in assigns and len(assigns[hk]) == 1:
-        hk = tk = ast.unparse(assigns[hk][0].value)
-    rep.check(hk == tk, 'E1', where,
-              'header block and payload are complementary slices',
-              '`%s = %s` and `%s = %s` do not cut the input at the same '
-              'index: bytes between the two are lost or delivered twice'
-              % (hv, ast.unparse(hn.value), tv, ast.unparse(tn.value)),
-              loc=ctx.func.loc(tn), reason='%s[:k] / %s[k:] with k = %s'
-              % (data, data, hk))
-    # k is the end of the boundary match
+    outcomes, tv, hv, sf, data = got
+    rep.functions.add(sf.qname)
+
+    def res(x, depth=0):
+        """substitute locals of the split function that are assigned once"""
+        if depth > 4:
+            return x
+        if isinstance(x, ast.Name) and x.id != data:
+            defs = [a.value for a in walk_own(sf.node)
+                    if isinstance(a, ast.Assign) and any(
+                        isinstance(t, ast.Name) and t.id == x.id
+                        for t in a.targets)]
+            if len(defs) == 1:
+                return res(defs[0], depth + 1)
+        return x
+    # the match object
+    mnames = set()
+    for a in walk_own(sf.node):
+        if isinstance(a, ast.Assign) and isinstance(a.value, ast.Call) and \
+                len(a.targets) == 1 and isinstance(a.targets[0], ast.Name):
+            f = a.value.func
+            t = ast.unparse(a.value)
+            if isinstance(f, ast.Attribute) and f.attr == 'search' and \
+                    'HEADER_BOUNDARY' in t and any(
+                        ast.unparse(arg) == data for arg in a.value.args):
+                mnames.add(a.targets[0].id)
+
+    def is_cut(k):
+        k = res(k)
+        return isinstance(k, ast.Call) and \
+            isinstance(k.func, ast.Attribute) and k.func.attr == 'end' and \
+            isinstance(k.func.value, ast.Name) and \
+            k.func.value.id in mnames and (
+                not k.args or (isinstance(k.args[0], ast.Constant) and
+                               k.args[0].value == 0))
+    n_cut = n_all = 0
+    for f, h, t, site in outcomes:
+        rep.evaluations += 1
+        hs, ts = _slice_of(h, data), _slice_of(t, data)
+        if hs and ts:
+            n_cut += 1
+            same = hs[0] == 'to' and ts[0] == 'from' and hs[1] == ts[1]
+            rep.check(same, 'E1', where,
+                      'header block and payload are complementary slices',
+                      '`%s` and `%s` do not cut the input at the same index: '
+                      'bytes between the two are lost or delivered twice'
+                      % (ast.unparse(h), ast.unparse(t)), loc=f.loc(site),
+                      reason='%s[:k] / %s[k:] with k = %s'
+                      % (data, data, hs[1]))
+            rep.evaluations += 1
+            k = h.slice.upper
+            rep.check(same and is_cut(k), 'E1', where,
+                      'the cut is the end of the header/body boundary match',
+                      'the cut index `%s` is not the end of a search match '
+                      'of the boundary pattern in the input'
+                      % ast.unparse(res(k)), loc=f.loc(site),
+                      reason='k = <_HEADER_BOUNDARY.search(%s)>.end()'
+                      % data)
+        elif ast.unparse(h) == data and isinstance(t, ast.Constant) and \
+                t.value == b'':
+            n_all += 1
+            rep.ok('E1', where, 'without a boundary everything is header',
+                   reason='(%s, b\'\')' % data, loc=f.loc(site))
+        else:
+            rep.bad('E1', where, 'cut `%s` / `%s`' % (
+                ' '.join(ast.unparse(h).split())[:30],
+                ' '.join(ast.unparse(t).split())[:30]),
+                'this way of cutting the input is neither (data[:k], '
+                'data[k:]) nor (data, b\'\'): bytes are lost, repeated or '
+                'put on the wrong side', loc=f.loc(site))
     rep.evaluations += 1
-    mname = hk.split('.')[0] if '.end(' in hk else None
-    mdefs = assigns.get(mname, []) if mname else []
-    ok = bool(mdefs) and all(
-        isinstance(d.value, ast.Call) and isinstance(d.value.func,
-                                                     ast.Attribute) and
-        d.value.func.attr == 'search' and
-        'HEADER_BOUNDARY' in ast.unparse(d.value) and
-        any(ast.unparse(a) == data for a in d.value.args) for d in mdefs)
-    rep.check(ok, 'E1', where,
-              'the cut is the end of the header/body boundary match',
-              'the cut index `%s` is not the end of a match of the '
-              'boundary pattern in the input' % hk, loc=ctx.func.loc(hn),
-              reason='k = <match of _HEADER_BOUNDARY in %s>.end(...)' % data)
-    # the no-boundary branch
-    rep.evaluations += 1
-    other_h = [n for n in assigns.get(hv, []) if n is not hn]
-    other_t = [n for n in assigns.get(tv, []) if n is not tn]
-    ok = len(other_h) == 1 and len(other_t) == 1 and \
-        ast.unparse(other_h[0].value) == data and \
-        isinstance(other_t[0].value, ast.Constant) and \
-        other_t[0].value.value == b''
-    rep.check(ok, 'E1', where, 'without a boundary everything is header',
-              'when no blank line is found the input is not taken as the '
-              'header block with an empty body', loc=ctx.func.loc(),
-              reason='%s = %s; %s = b\'\'' % (hv, data, tv))
+    rep.check(n_cut == 1 and n_all == 1, 'E1', where,
+              'exactly two ways to cut: at the boundary, or all header',
+              'parse has %d boundary cuts and %d no-boundary outcomes '
+              '(1 and 1 expected)' % (n_cut, n_all), loc=ctx.func.loc(),
+              reason='one cut at the boundary, one whole-input case')
     # E2: payload -> self.message
     msg_w = [n for n in walk_own(fn) if isinstance(n, ast.Assign) and any(
         ast.unparse(t) == 'self.message' for t in n.targets)]
@@ -305,26 +405,46 @@ def e1_e2(e: Engine, rep: Report):
 
 def e3(e: Engine, rep: Report):
     m = e.p.modules.get('slimta.envelope')
+    CLS = ('BytesParser', 'BytesGenerator', 'Parser', 'Generator',
+           'BytesFeedParser')
+
+    def policy_of(x):
+        """what the policy expression denotes: module-level names assigned
+        once are followed to their value (`_POLICY = SMTP`)"""
+        seen = set()
+        while isinstance(x, ast.Name) and x.id in m.globals and \
+                x.id not in seen and isinstance(m.globals[x.id],
+                                                (ast.Name, ast.Attribute)):
+            seen.add(x.id)
+            x = m.globals[x.id]
+        return ast.unparse(x)
     pols = []
     for n in ast.walk(m.tree):
-        if isinstance(n, ast.Call) and ast.unparse(n.func) in (
-                'BytesParser', 'BytesGenerator', 'Parser', 'Generator',
-                'BytesFeedParser'):
-            pol = [k.value for k in n.keywords if k.arg == 'policy']
-            pols.append((n, ast.unparse(pol[0]) if pol else None))
+        if not isinstance(n, ast.Call):
+            continue
+        fn = ast.unparse(n.func)
+        target = n
+        if fn.rpartition('.')[2] == 'partial' and n.args and \
+                ast.unparse(n.args[0]) in CLS:
+            fn = ast.unparse(n.args[0])      # partial(BytesGenerator, ...)
+        if fn in CLS:
+            pol = [k.value for k in target.keywords if k.arg == 'policy']
+            pols.append((n, fn, policy_of(pol[0]) if pol else None))
     rep.evaluations += 1
-    if len(pols) < 2:
-        rep.error('anchor vanished: parser / generator constructions (%d)'
-                  % len(pols))
+    made = {f for _, f, _ in pols}
+    if not any('Parser' in f for f in made) or \
+            not any('Generator' in f for f in made):
+        rep.error('anchor vanished: parser / generator constructions (%s)'
+                  % sorted(made))
         return
-    kinds = {p for _, p in pols}
+    kinds = {p for _, _, p in pols}
     rep.check(len(kinds) == 1 and None not in kinds, 'E3', 'slimta.envelope',
               'parser and generator share one policy',
               'the module parses with policy %s but generates with another '
               '(%s): header values are re-folded / re-encoded differently '
-              'on the way out' % (pols[0][1], sorted(map(str, kinds))),
+              'on the way out' % (pols[0][2], sorted(map(str, kinds))),
               loc='%s:%d' % (m.relpath, pols[0][0].lineno),
-              reason='policy=%s everywhere' % pols[0][1])
+              reason='policy=%s everywhere' % pols[0][2])
 
 
 def e4(e: Engine, rep: Report):
@@ -457,7 +577,28 @@ def e7(e: Engine, rep: Report):
         var = lp.target.id if isinstance(lp.target, ast.Name) else None
         bad = []
         enc = 0
+        # the body of the loop, with a helper the part is handed to
+        # (`self._encode_leaf_part(part, encoder)`) looked into
+        regions = [(lp, var, set(ctx.func.params))]
         for x in ast.walk(lp):
+            if isinstance(x, ast.Call) and isinstance(x.func, ast.Attribute) \
+                    and isinstance(x.func.value, ast.Name) and \
+                    x.func.value.id in ('self', 'cls') and any(
+                        isinstance(a, ast.Name) and a.id == var
+                        for a in x.args):
+                h = e.p.lookup_method(ENV, x.func.attr)
+                if h is not None:
+                    prm = [p for p in h.params if p not in ('self', 'cls')]
+                    i = [j for j, a in enumerate(x.args)
+                         if isinstance(a, ast.Name) and a.id == var][0]
+                    if i < len(prm):
+                        encp = {prm[j] for j, a in enumerate(x.args)
+                                if j < len(prm) and isinstance(a, ast.Name)
+                                and a.id in ctx.func.params}
+                        regions.append((h.node, prm[i], encp))
+                        rep.functions.add(h.qname)
+        for region, var, encnames in regions:
+          for x in ast.walk(region):
             if isinstance(x, ast.Call) and isinstance(x.func, ast.Attribute) \
                     and isinstance(x.func.value, ast.Name) and \
                     x.func.value.id == var and x.func.attr in REWRITERS:
@@ -468,7 +609,7 @@ def e7(e: Engine, rep: Report):
                     for t in x.targets):
                 bad.append(x)
             if isinstance(x, ast.Call) and isinstance(x.func, ast.Name) and \
-                    x.func.id in ctx.func.params and any(
+                    x.func.id in encnames and any(
                         isinstance(a, ast.Name) and a.id == var
                         for a in x.args):
                 enc += 1
